@@ -15,6 +15,23 @@ def dn(x):
 def up(x):
     return x if x != x or abs(x) == INF else math.nextafter(math.nextafter(x, INF), INF)
 
+def _exact_sum(x, y):
+    """(s, exact?) - Knuth's TwoSum error term decides whether the binary64 sum is exact"""
+    s = x + y
+    if s != s or abs(s) == INF:
+        return s, False
+    bb = s - x
+    err = (x - (s - bb)) + (y - bb)
+    return s, err == 0.0
+
+def _sum_dn(x, y):
+    s, ex = _exact_sum(x, y)
+    return s if ex else dn(s)
+
+def _sum_up(x, y):
+    s, ex = _exact_sum(x, y)
+    return s if ex else up(s)
+
 class I:
     __slots__ = ('lo', 'hi')
     def __init__(self, lo, hi=None):
@@ -24,8 +41,8 @@ class I:
     def width(self): return self.hi - self.lo
     @property
     def mag(self): return max(abs(self.lo), abs(self.hi))
-    def __add__(a, b): return I(dn(a.lo + b.lo), up(a.hi + b.hi))
-    def __sub__(a, b): return I(dn(a.lo - b.hi), up(a.hi - b.lo))
+    def __add__(a, b): return I(_sum_dn(a.lo, b.lo), _sum_up(a.hi, b.hi))
+    def __sub__(a, b): return I(_sum_dn(a.lo, -b.hi), _sum_up(a.hi, -b.lo))
     def __neg__(a): return I(-a.hi, -a.lo)
     def __mul__(a, b):
         ps = [a.lo * b.lo, a.lo * b.hi, a.hi * b.lo, a.hi * b.hi]
@@ -34,6 +51,8 @@ class I:
     def __truediv__(a, b):
         if b.lo <= 0 <= b.hi:
             raise ZeroDivisionError('interval division by zero')
+        if b.lo == b.hi and math.frexp(b.lo)[0] == 0.5 and abs(a.lo) < 1e300 and abs(a.hi) < 1e300 and (a.lo == 0 or abs(a.lo) > 1e-290) and (a.hi == 0 or abs(a.hi) > 1e-290):
+            return I(a.lo / b.lo, a.hi / b.lo)          # division by a power of two is exact
         ps = [a.lo / b.lo, a.lo / b.hi, a.hi / b.lo, a.hi / b.hi]
         return I(dn(min(ps)), up(max(ps)))
     def hull(a, b): return I(min(a.lo, b.lo), max(a.hi, b.hi))
